@@ -130,7 +130,7 @@ def c07(d, run):
 
 ALL_INV = ["UsedIsSum", "Bounded", "Agree", "Conservation", "NeverTwice", "NothingLost", "ResidentOwned",
            "IndexExact", "NoOrphan", "MetricsLaws"]
-ALL_CMP = ["store", "em", "costs", "chan", "life", "met", "cbs", "out"]
+ALL_CMP = ["store", "em", "costs", "chan", "life", "met", "cbs", "out", "vttl", "pop"]
 
 MC_NAMES = {
     "seq": "MC_Cache_seq (1 client x 4 calls; colliding keys; veto validator; internal cost 1; insert/insert_if_present/remove/get/clear/set_max)",
@@ -213,6 +213,7 @@ def c02(d, run):
     run.rule = ("one evaluation = one recorded critical section of the real cache under the baton scheduler; non-trivial = "
                 "lookups (get/get_mut), each compared with the value the specification says is visible for that key at that point")
     run.assumptions = BASE_ASSUME
+    _known(d, run, "D7")
 
 
 def c06(d, run):
@@ -225,6 +226,7 @@ def c06(d, run):
     run.rule = ("one evaluation = one recorded critical section; non-trivial = quiescent points reached (end of run after drain, "
                 "wait() returns) at which TLC evaluates Resident = Charged on the recorded state")
     run.assumptions = BASE_ASSUME
+    _known(d, run, "D7")
 
 
 def c08(d, run):
@@ -238,6 +240,7 @@ def c08(d, run):
                 "non-trivial = sections that can hand a value to a callback; TLC compares them with the specification's and "
                 "evaluates conservation at every quiescent state")
     run.assumptions = BASE_ASSUME
+    _known(d, run, "D7")
 
 
 def c10(d, run):
@@ -276,6 +279,7 @@ def c17(d, run):
     run.rule = ("every counter is compared after every recorded critical section; non-trivial = quiescent points at which TLC "
                 "evaluates the conservation laws")
     run.assumptions = BASE_ASSUME
+    _known(d, run, "D7")
 
 
 def c01(d, run):
